@@ -326,6 +326,25 @@ SplEncloses(x, r, e) ==
   LET lp == Longest(x, r) IN
   \A i \in SplClean(x, r, e) :
      Abs(At(e.eq, i) - (At(e.hi, i) - At(e.expect, i)) * 1048576) <= (lp[i] + 1) * (e.tolq + 4)
+\* The residual of the implicit equation itself, for n = 1 and n = 2 on single-direction graphs.  With
+\* eps_i = (returned new elevation) - (exact solution) in units of 2^-20 and u = eps_i - eps_r, the
+\* residual at node i, given the receiver's RETURNED new elevation, is
+\*    eps_i + F ((d + u)^n - d^n)        d = exact drop to the receiver (an integer), F = K dt A^m / L^n
+\* i.e. eps_i + F u (n = 1), eps_i + F (2 d u + u^2) (n = 2).  The Newton loop leaves |residual| <= tol;
+\* the slack is the quantisation of eps (one unit each) propagated through the same expression.
+SplEps(e, i) == (At(e.hi, i) - At(e.expect, i)) * 1048576 - At(e.eq, i)
+SplResidualSharp(x, r, e) ==
+  \A i \in SplClean(x, r, e) :
+     (~SelfOnly(r, i) /\ Len(RecSeq(r, i)) = 1 /\ e.ncode \in {2, 4}) =>
+        LET j == RecSeq(r, i)[1]
+            F == At(e.f, i)[1]
+            d == At(e.expect, i) - At(e.expect, j)
+            u == SplEps(e, i) - SplEps(e, j)
+            guard == Abs(u) <= 1073741824 \div (2 * F * Abs(d) + 1) /\ Abs(SplEps(e, i)) < 536870912
+            res == IF e.ncode = 2 THEN SplEps(e, i) + F * u
+                   ELSE SplEps(e, i) + F * (2 * d * u + (u \div 1024) * (u \div 1024))
+            slack == 4 + F * (4 * Abs(d) + (Abs(u) \div 256) + 4)
+        IN guard => Abs(res) <= e.tolq + slack
 -----------------------------------------------------------------------------
 (* C15 - the basin graph tree is a minimum spanning tree over the lowest     *)
 (* passes.  b: [nb, lab, outlets, edges (<<l0, l1, p0, p1, w>>, p = -1 for   *)
